@@ -43,6 +43,18 @@ def loop_run(topo, cfg):
             msg = str(r.exc)
             eng.check(et == 'SimulationError', 'C09.errtype', f'run() raised {et}: {msg[:120]}: {desc}', {'fp': fp + [et]})
             eng.check(bool(over), 'C09.interrupted', f'run() raised "{msg[:80]}" although no simulator needs a sub-step beyond max_loop_iterations={M}: {desc}', {'fp': fp})
+            # the sub-step index stands for the weak hops taken in THIS time step: it cannot exceed the number of steps executed in
+            # that time step, plus one for a weak hop that enters the time step (an output for a later time over a weak connection
+            # starts at index 1).  An index that does was carried over from earlier time steps (time-shifted connection in a group).
+            def carried(tau):
+                at_t = sum(1 for st in ref._steps if bool(st.tau[0] == tau[0]))
+                return all(bool(x > at_t + 1) for x in tau[1:] if bool(x >= M))
+            if over:
+                genuine = [(s_, t_) for s_, t_ in over if not carried(t_)]
+                eng.check(bool(genuine), 'C09.interrupted',
+                          lambda: f'run() raised "{msg[:90]}" but every sub-step index that reaches max_loop_iterations={M} '
+                          f'({[(s_, fmt(t_)) for s_, t_ in over]}) is larger than the number of steps taken in that time step: the loop settles '
+                          f'after fewer sub-steps, the index was carried over from earlier time steps: {desc}', {'fp': fp + ['carried'], 'carried': True})
             named = [sid for sid, _ in over if re.search(rf'\b{re.escape(sid)}\b', msg)]
             if over:
                 eng.check(bool(named), 'C09.name', f'the error does not name a simulator that exceeded the bound ({[s for s, _ in over]}): {msg[:100]}: {desc}', {'fp': fp})
@@ -67,6 +79,11 @@ def topologies():
         mk('loop_sibling_sub2', [[['A'], ['B']]], {'A': 'ev', 'B': 'ev'}, [('A', 'B', {'weak': True}), ('B', 'A')], init={'A': 0}),
         mk('loop_deep', [[['A', 'B']]], {'A': 'ev', 'B': 'ev'}, [('A', 'B'), ('B', 'A', {'weak': True})], init={'A': 0}),
         mk('loop_hy', [['A', 'B']], {'A': 'hy', 'B': 'hy'}, [('A', 'B'), ('B', 'A', {'weak': True})]),
+        # a cycle closed by a weak and a time-shifted connection: one sub-step per time step, over several time steps
+        mk('loop_ws', [['A', 'B']], {'A': 'ev', 'B': 'ev'}, [('A', 'B', {'weak': True}), ('B', 'A', {'k': 1})], init={'A': 0}, tags=('multi',)),
+        mk('loop_sw', [['A', 'B']], {'A': 'ev', 'B': 'ev'}, [('A', 'B', {'k': 1}), ('B', 'A', {'weak': True})], init={'A': 0}, tags=('multi',)),
+        mk('loop_ws3', [['A', 'B', 'C']], {'A': 'ev', 'B': 'ev', 'C': 'ev'}, [('A', 'B', {'weak': True}), ('B', 'C'), ('C', 'A', {'k': 1})], init={'A': 0},
+           tags=('multi',)),
     ]
 
 
@@ -81,7 +98,7 @@ def jobs(tier):
         masks = list(T.sync_masks(t, 'extremes' if (q or len(t['types']) > 2) else 'all'))
         for sync in masks:
             for cache in ((True,) if q else (True, False)):
-                cfg = {'until': 2, 'K': K, 'cache': cache, 'lazy': True, 'D': 0, 'sync': sync, 'salt': 0,
+                cfg = {'until': 4 if 'multi' in t.get('tags', ()) else 2, 'K': K, 'cache': cache, 'lazy': True, 'D': 0, 'sync': sync, 'salt': 0,
                        'no_self': sorted(t['types']) if not hy else ['B']}
                 big = len(t['types']) >= 3 and not sync
                 j = {'id': f"{t['name']}|sync={''.join(sync) or '-'}|cache={int(cache)}|K={K}", 'harness': 'vk.kernels.c09:loop_run',
